@@ -40,7 +40,7 @@ for f in metas:
     missed += sid in strength
     out.append(f"| {sid} | {summ} | {', '.join(c.get('caught_by', [])) or '—'} | {strength.get(sid, '—')} |")
 uncaught = [f.split('/')[-2] for f in metas if not json.load(open(f))['confirmation'].get('caught_by')]
-out.append(f"\n{missed} of the {len(metas)} changes were missed by the checks as they stood when the change arrived. After strengthening, every change is caught by its property's own quick check, with these exceptions, explained in the last column: {', '.join(uncaught) or 'none'} (not caught by any check. C06_k, C10_l, C10_q and C20_p show only on inputs outside the property's quantifier: for C06_k and C10_q (a shared aromatic atom spelled in lower case in one fragment and in upper case in the other) the unchanged tree does not satisfy the property there either, for C10_l the property does not say which of several identical '!' descriptors of one fragment pairs up, for C20_p the faulty node has no name at all, so the string is not 'otherwise valid'. C15_p and C15_r show on classes the C15 generator leaves out on purpose - an atom between two conjugated stereo double bonds, a marked substituent that is itself part of a (Kekule-written) double bond - because pysmiles' own reading of such spellings differs from OpenSMILES or is ambiguous and no reference exists: real blind spots of the check, recorded as such) and C15_i (caught by the numbering clauses of C12 and C16, not by C15). The recurring lesson: every miss was an input class the generators did not produce (a size, a spelling, a constructor, a second level, a key ending in a digit), an API entry point the workload never called (resolve_all, the sampler's constructor, from_graph with a keyword), or a contract that judged the result by the library's own state (its templates, its last_all_atom / legacy flags) instead of by what the caller wrote - which is the characteristic limit of this family (section 7). Three batches also exposed genuine defects of the unchanged tree: annotations lost through the squash operator (repaired in cf48081), RDKit re-perceiving aromaticity (C18, open finding), and two further faces of the E/Z root cause (C15, open findings: shared marked substituent; cut marked substituent of the first-written double-bond atom).\n")
+out.append(f"\n{missed} of the {len(metas)} changes were missed by the checks as they stood when the change arrived. After strengthening, every change is caught by its property's own quick check, with these exceptions, explained in the last column: {', '.join(uncaught) or 'none'} (not caught by any check. C06_k, C10_l, C10_q and C20_p show only on inputs outside the property's quantifier: for C06_k and C10_q (a shared aromatic atom spelled in lower case in one fragment and in upper case in the other) the unchanged tree does not satisfy the property there either, for C10_l the property does not say which of several identical '!' descriptors of one fragment pairs up, for C20_p the faulty node has no name at all, so the string is not 'otherwise valid'. C15_p and C15_r show on classes the C15 generator leaves out on purpose - an atom between two conjugated stereo double bonds, a marked substituent that is itself part of a (Kekule-written) double bond - because pysmiles' own reading of such spellings differs from OpenSMILES or is ambiguous and no reference exists: real blind spots of the check, recorded as such. C10_s, C15_s, C16_s and C17_s of the last batch are plain misses that were not closed in the time left: their triggers (several molecules in one from_graph graph with an open '!' label; a plain written hydrogen as marked substituent; a lower-case [nH] ring in the sampler; a library key that differs from the fragment name) are named in the last column) and C15_i (caught by the numbering clauses of C12 and C16, not by C15). The recurring lesson: every miss was an input class the generators did not produce (a size, a spelling, a constructor, a second level, a key ending in a digit), an API entry point the workload never called (resolve_all, the sampler's constructor, from_graph with a keyword), or a contract that judged the result by the library's own state (its templates, its last_all_atom / legacy flags) instead of by what the caller wrote - which is the characteristic limit of this family (section 7). Three batches also exposed genuine defects of the unchanged tree: annotations lost through the squash operator (repaired in cf48081), RDKit re-perceiving aromaticity (C18, open finding), and two further faces of the E/Z root cause (C15, open findings: shared marked substituent; cut marked substituent of the first-written double-bond atom).\n")
 out.append("### 9.3 Behaviour-preserving changes\n")
 out.append("A scratch tree with eight refactorings that keep every property (private helper of the sampler renamed, two error messages reworded, an extra node attribute on fine nodes, dict-based bookkeeping in `squash_atoms` and `read_fragments`, string concatenation in the writer, NumPy means in layout and forward mapping) was run through all twenty quick checks: no VIOLATION, no INCONCLUSIVE. Hooks whose target disappears are skipped (`hooks.MISSING`), mechanism line coverage never influences a verdict, messages are matched only to *classify an expected rejection*, never to raise an alarm. False alarms met while building the machinery and how they were removed: C06 thorough seed 61 (the name-reuse step of the hierarchy generator could give two different groups of one level the same name once a decoy definition repeated a lower-level name: names are deduplicated); C18 bond-length window on hypervalent sulfur / bridged benzene / fused three-rings (domain restricted to unstrained standard-valence molecules); C18 round trip on P(=O)(=C) (RDKit's order-dependent charge separation: hypervalent centres excluded); C09 on explicitly written hydrogens and on label-insensitive pairings of unequal order (contract follows the statement); C17 stop rule on a float tie (targets moved off multiples, sequential accumulation replayed); C19 on a graph whose only edge has order 0 (outside the premise); C03 equal-order requirement under the label-insensitive convention (dropped, the statement does not make it); C12 thorough tier on a loaded machine: the per-case hang watchdog fired inside a history, the monitor's own `except Exception` turned it into a recorded 'result' and the comparison with the reference run reported a difference (the watchdog exception is now a BaseException, a history case has a one-hour budget, and a fired watchdog can only make a run inconclusive); C03 thorough tier: the workload generator ran out of ring numbers on a fragment with more than 15 ring closures and ended the shard as a harness error (pool extended; a generator crash now restarts generation and is recorded in the evidence); C06 thorough tier (seed 41): in a polymer-style input resolved under the label-insensitive convention a lower-case benzene unit had received an exocyclic double bond (a `$` of order 1 pairs with a `$` of order 2 there), its ring was no longer aromatic and the library's re-kekulisation of all lower-case atoms put the double bond of the quinoid structure on the bond between two rings, annotated with order 1 - the bond-order clause of C03 now accepts 1, 2 or 1.5 for a bond between two atoms written in lower case, in the polymer-style workloads only (in the ground-truth workloads aromatic rings are aromatic and the strict clause stays).\n")
 p = os.path.join(V, 'DESIGN.md')
